@@ -364,7 +364,7 @@ func main() {
 	r.Rule("worlds of 4-7 stores and 3-6 adjacent regions (feature modes joint consensus / demotion without joint consensus / legacy); operators from the real builder and constructors over random targets (add/remove/promote/demote/move/transfer, demotion-only joint changes, light peers, leave-joint, split, merge pairs; normal and admin priority; built from pd's current or a superseded view); phase 1 executes each operator with its own steps only; phase 2 is a PRNG loop over {AddOperator, AddWaitingOperator, PromoteWaitingOperator, admin operator (replace), RemoveOperator, store executes / duplicates / loses a pending command, region-cache update, Dispatch(heartbeat), Dispatch(active push), PushOperators, foreign conf change with fresh peer ids (add learner, remove follower, promote, demote), foreign version bump / split, foreign leader change incl. onto the peer about to be removed}; phase 3 issues the same calls from 8 goroutines over 4 regions. evaluations = operators that were admitted and observed until they ended; distinct = distinct (mode, step-kind sequence, end status, kinds of foreign change, ended-by) tuples")
 	r.Assume("pkg/mock/mockcluster is the opt.Cluster, lib/sim is the store (conf change v1/v2, refuses stale epochs, commands not addressed to the leader, simple changes in a joint state); all stores are up and store limits are unlimited (wall-clock token buckets)")
 	r.Assume("'the region's epoch / leader at send or admission time' is the region as pd's cache holds it during the call; Dispatch is always given the cached region (monotone views)")
-	r.Assume("own_applied = conf_ver units the simulator applied while executing commands that were sent for the operator; a foreign change that produces exactly the peer state one of the operator's own steps would produce cannot be told apart by pd: such operators are not judged for staleness (skipped_ambiguous_staleness); commands that cannot be attributed with certainty taint the operators of the region the same way")
+	r.Assume("own_applied = conf_ver units the simulator applied while executing commands that were sent for the operator; a foreign change that touches a peer (store, peer id) named by one of the operator's steps, or removes the peer of a store the operator removes from, cannot be told apart from the operator's own progress by pd: such operators are not judged for staleness (skipped_ambiguous_staleness); commands that cannot be attributed with certainty taint the operators of the region the same way")
 	r.Assume("EXPIRED / TIMEOUT are wall-clock transitions: only their direction is judged; an operator record is looked up right after the call in which the operator left the running set (records live 10 minutes of wall clock); the source half of a merge ends when its region disappears and is not judged by the own-steps-only oracle")
 
 	defer func() {
@@ -375,7 +375,7 @@ func main() {
 	}()
 	canonical(r)
 
-	worlds := r.Pick(330, 1400)
+	worlds := r.Pick(450, 1400)
 	events := r.Pick(560, 700)
 	ownN := r.Pick(8, 10)
 	modes := []string{modeJoint, modeJoint, modeJoint, modeDemote, modeLegacy}
